@@ -17,7 +17,7 @@ for k in (1,2,3,4):
     f='/verif/seeded/%s-%d/meta.json'%(pid,k)
     if os.path.exists(f):
         known.append(json.load(open(f))['breaks'][:450])
-print(f"""You are given a scratch git worktree of the open-source Python project androguard at {wt} (a pure-Python parser for Android DEX/APK/binary-XML/ARSC formats with analysis and the DAD decompiler). Work ONLY inside {wt} and write deliverables to {out}. Never read or modify /repo or /verif. Run Python as `/venv/bin/python` with `PYTHONPATH={wt}` (and `cd {wt}`), so that `import androguard` resolves to the worktree (verify with `androguard.__file__`). There is no network.
+print(f"""You are given a scratch git worktree of the open-source Python project androguard at {wt} (a pure-Python parser for Android DEX/APK/binary-XML/ARSC formats with analysis and the DAD decompiler). Work ONLY inside {wt} and write deliverables to {out}. Never read or modify /repo or /verif. Run Python as `/venv/bin/python` with `PYTHONPATH={wt}` (and `cd {wt}`), so that `import androguard` resolves to the worktree (verify with `androguard.__file__`). There is no network. Do not use `git stash` (the stash is shared between all worktrees of the repository and other agents work in sibling worktrees): keep your changes as patch files under the deliverables directory and switch with `git apply` / `git checkout -- .`.
 
 Here is a semantic property that the project is supposed to satisfy:
 
